@@ -44,15 +44,15 @@ func CheckWalk(ctx context.Context, rec *fw.Rec, prefix string, wc *WalkCase, sp
 }
 
 type walkCase struct {
-	Spec       *ref.ASpec    `json:"spec"`
-	Native     bool          `json:"native"`
-	State      ref.AState    `json:"state"`
-	Messages   []interface{} `json:"messages"`
-	Limit      int           `json:"limit"`
-	Breakpoint string        `json:"breakpoint,omitempty"` // "" | node:<name> | has:<binding>
-	NilControl bool          `json:"nilControl,omitempty"`
+	Spec       *ref.ASpec     `json:"spec"`
+	Native     bool           `json:"native"`
+	State      ref.AState     `json:"state"`
+	Messages   []interface{}  `json:"messages"`
+	Limit      int            `json:"limit"`
+	Breakpoint string         `json:"breakpoint,omitempty"` // "" | node:<name> | has:<binding>
+	NilControl bool           `json:"nilControl,omitempty"`
 	NativeMode ref.NativeMode `json:"nativeMode,omitempty"`
-	Props      bool          `json:"props,omitempty"`
+	Props      bool           `json:"props,omitempty"`
 }
 
 func (wc *walkCase) control() *core.Control {
@@ -371,9 +371,10 @@ func allSplits(n int) [][]int {
 }
 
 func Run(cfg fw.Config, rec *fw.Rec) {
-	rec.Rule = "random specs (1-5 nodes incl. cyclic / non-terminating, failing and bad-return actions, guards, @var and missing targets, all error settings, nodes that have an action and message branching; native and ECMAScript) x start states x sequences of 0-8 messages with unique ids (objects and the scalars false, 0, \"\") x limits {0,1,2,3,5,30,60,100,-1} x breakpoints; each Walked is checked as a history; every split of sequences of <= 6 messages is compared with the single Walk; non-trivial = walk with >= 2 strides; distinct by canonical (spec,state,messages,limit,breakpoint)"
-	rec.Required = []string{"stop_done", "stop_limited", "stop_breakpoint", "walks_consuming_several", "done_with_dropped_messages", "splits_compared", "ecma_walks", "scalar_messages", "specs_with_action_and_message_branching_node"}
+	rec.Rule = "random specs (1-5 nodes incl. cyclic / non-terminating, failing and bad-return actions, guards, @var and missing targets, all error settings, nodes that have an action and message branching; native and ECMAScript) x start states x sequences of 0-8 messages with unique ids (objects and the scalars false, 0, \"\") x limits {0,1,2,3,5,30,60,100,-1} x breakpoints; plus three-message batches in which one message carries a value that is not JSON (NaN, infinities, 12000-deep nesting, Go ints, functions, channels, structs, byte slices, maps with non-string keys) at every position under limits 1, 2, 3, 100: consumed once and in order, by identity; each Walked is checked as a history; every split of sequences of <= 6 messages is compared with the single Walk; non-trivial = walk with >= 2 strides; distinct by canonical (spec,state,messages,limit,breakpoint)"
+	rec.Required = []string{"stop_done", "stop_limited", "stop_breakpoint", "walks_consuming_several", "done_with_dropped_messages", "splits_compared", "ecma_walks", "scalar_messages", "specs_with_action_and_message_branching_node", "batches_with_a_message_that_is_not_json"}
 	rec.Assume = []string{"actions and guards are deterministic; guarded branches have at most one candidate", "stride-level agreement relies on ref.Step (see C04)"}
+	oddMessages(rec)
 	n := cfg.Pick(30000, 600000)
 	limits := []int{0, 1, 2, 3, 5, 30, 30, 60, 100, -1}
 	fw.Parallel(cfg.Workers, n, func(w, i int) {
@@ -408,7 +409,7 @@ func Run(cfg fw.Config, rec *fw.Rec) {
 				wc.Messages = append(wc.Messages, "")
 				rec.Bucket("scalar_messages")
 			default:
-				wc.Messages = append(wc.Messages, gen.GenMessage(r, u.Next("m"), names))
+				wc.Messages = append(wc.Messages, gen.GenAnyMessage(r, u.Next("m"), names))
 			}
 		}
 		switch r.Intn(8) {
@@ -443,7 +444,9 @@ func Run(cfg fw.Config, rec *fw.Rec) {
 			wc2.Limit = 80
 			wc2.Breakpoint = ""
 			var whole *core.Walked
-			if rec.Guard("C05:split", &wc2, func() { whole, _ = spec.Walk(context.Background(), coreState(wc2.State), fw.Deep(wc2.Messages).([]interface{}), wc2.control(), nil) }) {
+			if rec.Guard("C05:split", &wc2, func() {
+				whole, _ = spec.Walk(context.Background(), coreState(wc2.State), fw.Deep(wc2.Messages).([]interface{}), wc2.control(), nil)
+			}) {
 				return
 			}
 			var splits [][]int
